@@ -57,7 +57,8 @@ func completeCommand(p np.Path, ev *eval.Evaler, cfg Config) (*context, []RawIte
 		// command.
 		return generateForEmpty(p[0].Range().To)
 	}
-	if p.Match(np.Sep, np.Chunk) || p.Match(np.Sep, np.Pipeline) {
+	var pipeline *parse.Pipeline
+	if p.Match(np.Sep, np.Chunk) || p.Match(np.Sep, np.Store(&pipeline)) && !afterBackgroundSign(p[0], pipeline) {
 		// Case 2: Just after a newline, semicolon, or a pipe.
 		return generateForEmpty(p[0].Range().To)
 	}
@@ -65,7 +66,8 @@ func completeCommand(p np.Path, ev *eval.Evaler, cfg Config) (*context, []RawIte
 	var primary *parse.Primary
 	if p.Match(np.Sep, np.Store(&primary)) {
 		t := primary.Type
-		if t == parse.OutputCapture || t == parse.ExceptionCapture || t == parse.Lambda {
+		if (t == parse.OutputCapture || t == parse.ExceptionCapture || t == parse.Lambda) &&
+			primary.Chunk != nil && p[0].Range().To <= primary.Chunk.Range().From {
 			// Case 3: At the beginning of output, exception capture or lambda.
 			//
 			// TODO: Don't trigger after "{|".
@@ -85,6 +87,12 @@ func completeCommand(p np.Path, ev *eval.Evaler, cfg Config) (*context, []RawIte
 	return nil, nil, errNoCompletion
 }
 
+// Reports whether a separator in a pipeline is the "&" of a background pipeline
+// or comes after it, where no command can start.
+func afterBackgroundSign(sep parse.Node, pn *parse.Pipeline) bool {
+	return pn.Background && len(pn.Forms) > 0 && sep.Range().From >= pn.Forms[len(pn.Forms)-1].Range().To
+}
+
 // NOTE: This now only supports a single level of indexing; for instance,
 // $a[<Tab> is supported, but $a[x][<Tab> is not.
 func completeIndex(p np.Path, ev *eval.Evaler, cfg Config) (*context, []RawItem, error) {
@@ -94,7 +102,8 @@ func completeIndex(p np.Path, ev *eval.Evaler, cfg Config) (*context, []RawItem,
 	}
 
 	var indexing *parse.Indexing
-	if p.Match(np.Sep, np.Store(&indexing)) || p.Match(np.Sep, np.Array, np.Store(&indexing)) {
+	if p.Match(np.Sep, np.Store(&indexing)) && parse.SourceText(p[0]) == "[" ||
+		p.Match(np.Sep, np.Array, np.Store(&indexing)) {
 		// We are at a new index, either directly after the opening bracket, or
 		// after an existing index and some spaces.
 		if len(indexing.Indices) == 1 {
